@@ -312,7 +312,18 @@ fn verify_after_kill(rep: &mut Report, h: &Hist, dir: &Path, journal: &Path, fro
     // completed ops must be a prefix from..from+n
     let ncompleted = j.completed.len();
     let done_upto = from + ncompleted;
-    let (m0, offs0) = model_after(h, done_upto);
+    let (m0, _gen_offs) = model_after(h, done_upto);
+    // offsets: calls completed before this child started returned what the generation run returned
+    // (same operations on the same state); calls completed by this child returned what it journaled
+    // (after an earlier kill the map may hold leaked bytes, so they can differ from the generation run)
+    let (_, mut offs0) = model_after(h, from);
+    for (k, res) in j.completed.iter() {
+        if let (Some(COp::Store(ev)), Some(rest)) = (h.ops.get(*k), res.strip_prefix("ok ")) {
+            if let Ok(o) = rest.trim().parse::<u64>() {
+                offs0.push((0, o, ev.clone()));
+            }
+        }
+    }
     // results journaled by the child must agree with the generation run (same ops, same start state)
     for (i, (k, res)) in j.completed.iter().enumerate() {
         let want_ok = h.outcomes.get(*k).map(|o| o.is_ok()).unwrap_or(true);
@@ -324,13 +335,15 @@ fn verify_after_kill(rep: &mut Report, h: &Hist, dir: &Path, journal: &Path, fro
     let inflight = j.inflight.filter(|k| *k == done_upto && *k < h.ops.len());
     let mut m1: Option<Model> = None;
     let mut vanish_targets: Option<BTreeSet<Id32>> = None;
-    let mut offs1 = offs0.clone();
+    // (the interrupted call never returned its offset to anybody: no claim about it)
+    let offs1 = offs0.clone();
     if let Some(k) = inflight {
         match &h.ops[k] {
             COp::Vanish(pk) => vanish_targets = Some(m0.vanish_targets(pk)),
             op => {
                 let mut m = m0.clone();
-                apply_op(&mut m, &mut offs1, op, &h.outcomes[k]);
+                let mut scratch = vec![];
+                apply_op(&mut m, &mut scratch, op, &h.outcomes[k]);
                 m1 = Some(m);
             }
         }
@@ -512,7 +525,32 @@ pub fn run(args: &Args) -> Report {
                     continue;
                 }
                 *points_seen.entry(point.clone()).or_insert(0) += 1;
+                // keep a copy of the directory as the killed process left it, for a second-generation kill
+                let chain = only_kill.is_none() && (thorough && trialno % 3 == 0 || !thorough && trialno % 8 == 0);
+                let tdir2 = base.join(format!("t{hit}_second"));
+                if chain {
+                    copy_dir(&tdir, &tdir2);
+                }
                 let img = verify_after_kill(&mut rep, &h, &tdir, &jf, from, &point, &trial, seed, &mut rng);
+                if chain && (img == "before" || img == "after") {
+                    // a directory left by a previous kill is opened and worked on by a process that is killed too
+                    let j = read_journal(&jf);
+                    let from2 = from + j.completed.len() + (img == "after") as usize;
+                    if from2 < h.ops.len() {
+                        let jf2 = base.join(format!("t{hit}_second.journal"));
+                        let hit2 = rng.below(45) as i64;
+                        let st2 = run_child(&h, &tdir2, &jf2, from2, h.ops.len(), hit2, None, 0, seed, None);
+                        let trial2 = json!({"kind":"crash-trial-second-generation","seed":seed,"index":hi,"from":from,"kill_at_hit":hit,"then_from":from2,"then_kill_at_hit":hit2,"tier":args.tier()});
+                        rep.eval(fnv(format!("{trial2}").as_bytes()), true);
+                        if st2.signal() == Some(libc::SIGKILL) {
+                            let img2 = verify_after_kill(&mut rep, &h, &tdir2, &jf2, from2, &format!("second-generation-after-{point}"), &trial2, seed, &mut rng);
+                            rep.count(&format!("second_generation_image:{img2}"));
+                        } else {
+                            rep.count("second_generation_child_finished_before_kill");
+                        }
+                    }
+                }
+                let _ = std::fs::remove_dir_all(&tdir2);
                 *images.entry(point.clone()).or_default().entry(img).or_insert(0) += 1;
                 rep.count(&format!("image:{img}"));
                 if trialno <= 3 {
